@@ -12,7 +12,7 @@ CONSTANTS Comp = "multi"
   NBuf = 0
   Gaps <- G_6_31
   Strict = FALSE
-  D = 5
+  D = 6
 INIT Init
 NEXT Next
 VIEW viewE
